@@ -5,25 +5,31 @@
 //!   task <tag> <rt|loc> <ins> <ins> ...     a task program; `rt` = tokio::spawn, `loc` = tokio::task::spawn_local
 //!   ev <time_ns> <ins> <ins> ...            a message delivered to the module at absolute time <time_ns>;
 //!                                           the (synchronous) handler executes the instructions (s / w only)
+//!   cev <time_ns> <ins> ...                 a message that a capturing ProcessingElement of the module CONSUMES: the
+//!                                           element executes the instructions (w only) in `incoming`, i.e. outside
+//!                                           the executor (a hand-off to a task through a channel); the handler is not run
 //!   run                                     run the simulation; the transcript answer carries everything observed
 //! Instructions (`*n` suffix = repeat n times):
 //!   s<T>  spawn task T            w<K>  wake condition K once     a<K>  await condition K
 //!   y     tokio::task::yield_now().await                          j<T>  await the JoinHandle of task T
+//!   z<D>  des::time::sleep(D ns).await                            u<T>  des::time::sleep_until(T ns).await
 //! Condition K is a real tokio primitive chosen by K % 3:
 //!   0 Semaphore (wake = add_permits(1), await = acquire().await + forget)
 //!   1 mpsc::unbounded_channel (wake = send(()), await = recv().await)
 //!   2 Notify (wake = notify_one(), await = notified().await)
 //! Every task records (SimTime::now(), tag) when it is first polled and after every await.
 //!
-//! Transcript:  run -> L=<n> E=<n> C=<n> res=<ok|err|panic> log=<t>:<tag>,<tag>;<t>:<tag>...
+//! Transcript:  run -> L=<n> E=<n> C=<n> G=<n> res=<ok|err|panic> log=<t>:<tag>,<tag>;<t>:<tag>...
 //!   log = the global sequence of records, grouped by observed time (records made during at_sim_end or later
 //!   are dropped: they are "never" as far as simulated time is concerned);
 //!   L / E / C = the *measured* budgets of the executor (observed through the order of the records): how many of
 //!   2000 simultaneously ready spawn_local tasks one LocalSet tick polls before the runtime's tasks get their
 //!   turn, how many of 2000 ready tokio::spawn tasks the runtime polls before the LocalSet is ticked again, and
-//!   how many of 1000 available mpsc messages one poll receives before it is forced to yield.
+//!   how many of 1000 available mpsc messages one poll receives before it is forced to yield; G = the distance
+//!   between two timer-woken (inject queue) tasks in a stream of handler-spawned (local queue) tasks.
 use crate::rng::Rng;
 use crate::util::{cases, guarded, hval};
+use des::net::processing::{ProcessingElement, ProcessingStack};
 use des::prelude::*;
 use std::collections::HashMap;
 use std::fmt::Write;
@@ -42,6 +48,8 @@ enum Ins {
     Wait(u32),
     Yield,
     Join(u32),
+    Sleep(u64),
+    SleepUntil(u64),
 }
 
 fn parse_ins(tok: &str, out: &mut Vec<Ins>) {
@@ -55,6 +63,8 @@ fn parse_ins(tok: &str, out: &mut Vec<Ins>) {
     let (op, arg) = body.split_at(1);
     let n = arg.parse::<u32>().ok();
     let ins = match (op, n) {
+        ("z", _) if arg.parse::<u64>().is_ok() => Ins::Sleep(arg.parse::<u64>().unwrap()),
+        ("u", _) if arg.parse::<u64>().is_ok() => Ins::SleepUntil(arg.parse::<u64>().unwrap()),
         ("s", Some(n)) => Ins::Spawn(n),
         ("w", Some(n)) => Ins::Wake(n),
         ("a", Some(n)) => Ins::Wait(n),
@@ -167,6 +177,14 @@ fn run_task(w: Arc<World>, tag: u32) -> Pin<Box<dyn Future<Output = ()> + Send>>
                     tokio::task::yield_now().await;
                     w.record(tag);
                 }
+                Ins::Sleep(d) => {
+                    des::time::sleep(Duration::from_nanos(d)).await;
+                    w.record(tag);
+                }
+                Ins::SleepUntil(t) => {
+                    des::time::sleep_until(SimTime::from_duration(Duration::from_nanos(t))).await;
+                    w.record(tag);
+                }
                 Ins::Join(t) => {
                     let h = w.started.lock().unwrap().get_mut(&t).and_then(|h| h.take());
                     match h {
@@ -184,13 +202,42 @@ fn run_task(w: Arc<World>, tag: u32) -> Pin<Box<dyn Future<Output = ()> + Send>>
 
 struct Node {
     w: Arc<World>,
-    events: Arc<Vec<Vec<Ins>>>,
+    events: Arc<Vec<(bool, Vec<Ins>)>>,
+}
+
+/// consumes the messages of `cev` lines, performing their wakes outside the executor
+struct Capture {
+    w: Arc<World>,
+    events: Arc<Vec<(bool, Vec<Ins>)>>,
+}
+
+impl ProcessingElement for Capture {
+    fn incoming(&mut self, msg: Message) -> Option<Message> {
+        let id = msg.header().id as usize;
+        match self.events.get(id) {
+            Some((true, prog)) => {
+                for ins in prog {
+                    if let Ins::Wake(k) = *ins {
+                        self.w.wake(k);
+                    }
+                }
+                None
+            }
+            _ => Some(msg),
+        }
+    }
 }
 
 impl Module for Node {
+    fn stack(&self, stack: ProcessingStack) -> ProcessingStack {
+        let mut stack = stack;
+        stack.append(Capture { w: self.w.clone(), events: self.events.clone() });
+        stack
+    }
+
     fn handle_message(&mut self, msg: Message) {
         let id = msg.header().id as usize;
-        if let Some(prog) = self.events.get(id) {
+        if let Some((_, prog)) = self.events.get(id) {
             self.w.exec_sync(prog);
         }
     }
@@ -203,7 +250,7 @@ impl Module for Node {
 
 struct Script {
     tasks: Vec<(u32, bool, Vec<Ins>)>,
-    events: Vec<(u64, Vec<Ins>)>,
+    events: Vec<(u64, bool, Vec<Ins>)>,
 }
 
 fn parse(body: &[String]) -> (Script, bool) {
@@ -221,13 +268,13 @@ fn parse(body: &[String]) -> (Script, bool) {
                 }
                 s.tasks.push((tag, loc, prog));
             }
-            Some("ev") if toks.len() >= 2 => {
+            Some("ev") | Some("cev") if toks.len() >= 2 => {
                 let Some(t) = toks[1].parse::<u64>().ok() else { continue };
                 let mut prog = Vec::new();
                 for t in &toks[2..] {
                     parse_ins(t, &mut prog);
                 }
-                s.events.push((t, prog));
+                s.events.push((t, toks[0] == "cev", prog));
             }
             Some("run") => run = true,
             _ => {}
@@ -258,7 +305,7 @@ fn simulate(s: &Script) -> (&'static str, Vec<(u64, u32)>) {
         note(prog);
         progs.entry(*tag).or_insert((*loc, prog.clone()));
     }
-    for (_, prog) in &s.events {
+    for (_, _, prog) in &s.events {
         note(prog);
     }
     let w = Arc::new(World {
@@ -268,7 +315,7 @@ fn simulate(s: &Script) -> (&'static str, Vec<(u64, u32)>) {
         log: Mutex::new(Vec::new()),
         ended: AtomicBool::new(false),
     });
-    let events: Arc<Vec<Vec<Ins>>> = Arc::new(s.events.iter().map(|e| e.1.clone()).collect());
+    let events: Arc<Vec<(bool, Vec<Ins>)>> = Arc::new(s.events.iter().map(|e| (e.1, e.2.clone())).collect());
     let w2 = w.clone();
     let times: Vec<u64> = s.events.iter().map(|e| e.0).collect();
     let res = guarded(move || {
@@ -298,14 +345,14 @@ fn simulate(s: &Script) -> (&'static str, Vec<(u64, u32)>) {
 }
 
 /// measured effective budgets (L, E, C), see the module doc
-fn budgets() -> (usize, usize, usize) {
-    static B: OnceLock<(usize, usize, usize)> = OnceLock::new();
+fn budgets() -> (usize, usize, usize, usize) {
+    static B: OnceLock<(usize, usize, usize, usize)> = OnceLock::new();
     *B.get_or_init(|| {
         // L: one runtime task spawned first, then 2000 local tasks: the LocalSet tick comes first, so the number of
         //    local tasks recorded before the runtime task is the tick budget
         let s = Script {
             tasks: (0..=2000u32).map(|i| (i, i != 0, vec![])).collect(),
-            events: vec![(1000, (0..=2000u32).map(Ins::Spawn).collect()), (1_000_000_000, vec![])],
+            events: vec![(1000, false, (0..=2000u32).map(Ins::Spawn).collect()), (1_000_000_000, false, vec![])],
         };
         let (_, log) = simulate(&s);
         let l = log.iter().take_while(|e| e.1 != 0).count();
@@ -315,7 +362,7 @@ fn budgets() -> (usize, usize, usize) {
         tasks.extend((2..=2000u32).map(|i| (i, false, vec![])));
         let s = Script {
             tasks,
-            events: vec![(1000, vec![Ins::Spawn(0)]), (2000, (1..=2000u32).map(Ins::Spawn).collect()), (1_000_000_000, vec![])],
+            events: vec![(1000, false, vec![Ins::Spawn(0)]), (2000, false, (1..=2000u32).map(Ins::Spawn).collect()), (1_000_000_000, false, vec![])],
         };
         let (_, log) = simulate(&s);
         let e = log.iter().skip(1).take_while(|e| e.1 != 0).count();
@@ -326,11 +373,28 @@ fn budgets() -> (usize, usize, usize) {
         ev.push(Ins::Spawn(1));
         let s = Script {
             tasks: vec![(0, false, vec![Ins::Wait(1); 1000]), (1, false, vec![])],
-            events: vec![(1000, ev), (1_000_000_000, vec![])],
+            events: vec![(1000, false, ev), (1_000_000_000, false, vec![])],
         };
         let (_, log) = simulate(&s);
         let c = log.iter().take_while(|e| e.1 != 1).count().saturating_sub(1);
-        (l, e, c)
+        // G: 200 runtime tasks (tags >= 1000) sleep until t = 5000 and are woken by the timer driver when the message
+        //    of that instant arrives, i.e. outside the executor (inject queue); its handler spawns 2000 runtime tasks
+        //    (local queue): the inject queue is looked at first on every G-th scheduler tick
+        let mut tasks: Vec<(u32, bool, Vec<Ins>)> = (0..2000u32).map(|i| (i, false, vec![])).collect();
+        tasks.extend((5000..5200u32).map(|i| (i, false, vec![Ins::SleepUntil(5000)])));
+        let s = Script {
+            tasks,
+            events: vec![
+                (1000, false, (5000..5200u32).map(Ins::Spawn).collect()),
+                (5000, false, (0..2000u32).map(Ins::Spawn).collect()),
+                (1_000_000_000, false, vec![]),
+            ],
+        };
+        let (_, log) = simulate(&s);
+        let pos: Vec<usize> =
+            log.iter().enumerate().filter(|(_, e)| e.0 == 5000 && e.1 >= 5000).map(|(i, _)| i).collect();
+        let g = if pos.len() >= 3 { pos[2] - pos[1] } else { 0 };
+        (l, e, c, g)
     })
 }
 
@@ -341,7 +405,7 @@ pub fn exec(input: &str) -> String {
         let (script, _) = parse(&body);
         for line in &body {
             if line.split_whitespace().next() == Some("run") {
-                let (l, e, c) = budgets();
+                let (l, e, c, g) = budgets();
                 let (res, log) = simulate(&script);
                 let mut s = String::new();
                 let mut last: Option<u64> = None;
@@ -359,7 +423,7 @@ pub fn exec(input: &str) -> String {
                 if s.is_empty() {
                     s.push('-');
                 }
-                writeln!(out, "run -> L={l} E={e} C={c} res={res} log={s}").unwrap();
+                writeln!(out, "run -> L={l} E={e} C={c} G={g} res={res} log={s}").unwrap();
             } else {
                 writeln!(out, "{line}").unwrap();
             }
@@ -424,6 +488,16 @@ pub fn gen(seed: u64, count: usize, thorough: bool) -> String {
         // handler programs of the (1..3) "work" events; a late, unrelated event follows
         let nev = g.r.range(1, 3) as usize;
         let mut evs: Vec<Vec<String>> = vec![Vec::new(); nev];
+        // the instants of the work events are fixed first: sleepers aim at them, just beside them, between them
+        let mut times: Vec<u64> = Vec::new();
+        let mut t = 0u64;
+        for _ in 0..nev {
+            t += *g.r.pick(&[7u64, 1000, 1_000_000, 2_500_000_000]);
+            times.push(t);
+        }
+        // messages consumed by the capturing element: (slot = after work event i, wakes)
+        let mut cevs: Vec<(usize, Vec<String>)> = Vec::new();
+        let timer_n: [u64; 6] = [1, 60, 61, 62, 200, 2000];
         // 0 tokio::spawn only, 1 spawn_local only, 2 mixed
         let mode = match g.r.below(8) {
             0..=2 => 0,
@@ -442,7 +516,7 @@ pub fn gen(seed: u64, count: usize, thorough: bool) -> String {
             } else {
                 g.r.range(1, 8)
             };
-            match g.r.below(7) {
+            match g.r.below(11) {
                 0 => {
                     // burst: n tasks ready at once
                     for _ in 0..n {
@@ -532,6 +606,86 @@ pub fn gen(seed: u64, count: usize, thorough: bool) -> String {
                         evs[0].push(format!("s{u}"));
                     }
                 }
+                7 | 8 => {
+                    // burst of sleepers with the same deadline: woken by the timer driver outside the executor
+                    // (runtime tasks: inject queue), optionally each handing on to a waiter
+                    let n = if big { *g.r.pick(&timer_n) } else if g.r.chance(1, 5) { *g.r.pick(&timer_n[1..4]) } else { g.r.range(1, 6) };
+                    let e2 = g.r.range(e as u64, nev as u64 - 1) as usize;
+                    // absolute deadline: a later work event's instant (the message is delivered first and its handler
+                    // competes through the local queue), one tick beside it, between events, or after the last one
+                    let base = times[e];
+                    let dl = match g.r.below(5) {
+                        0 => times[e2],
+                        1 => times[e2] + 1,
+                        2 => times[e2].saturating_sub(1).max(base),
+                        3 => base + g.r.range(1, 5000),
+                        _ => times[nev - 1] + g.r.range(1, 1_000_000),
+                    };
+                    let rel = g.r.chance(1, 2);
+                    let chain = n <= 200 && g.r.chance(1, 2);
+                    for _ in 0..n {
+                        let loc = g.kind(mode);
+                        let sl = if rel { format!("z{}", dl.saturating_sub(base)) } else { format!("u{dl}") };
+                        let mut prog = vec![sl];
+                        if chain {
+                            let k = g.cond(true);
+                            let loc2 = g.kind(mode);
+                            let u = g.task(loc2, vec![format!("a{k}")]);
+                            evs[0].push(format!("s{u}"));
+                            prog.push(format!("w{k}"));
+                        }
+                        let t = g.task(loc, prog);
+                        evs[e].push(format!("s{t}"));
+                    }
+                    // competitors spawned by the handler of the deadline's instant
+                    if g.r.chance(1, 2) {
+                        for _ in 0..g.r.range(1, 70) {
+                            let loc = g.kind(mode);
+                            let t = g.task(loc, vec![]);
+                            evs[e2].push(format!("s{t}"));
+                        }
+                    }
+                }
+                9 => {
+                    // sleep sequences: several deadlines per task, zero sleeps, deadlines in the past
+                    for _ in 0..n.min(40) {
+                        let loc = g.kind(mode);
+                        let mut prog = Vec::new();
+                        for _ in 0..g.r.range(1, 4) {
+                            prog.push(match g.r.below(6) {
+                                0 => "z0".to_string(),
+                                1 => format!("u{}", times[g.r.below(nev as u64) as usize]),
+                                2 => format!("z{}", g.r.range(1, 3)),
+                                3 => format!("z{}", *g.r.pick(&[7u64, 1000, 1_000_000])),
+                                4 => "y".to_string(),
+                                _ => format!("u{}", g.r.range(0, 3000)),
+                            });
+                        }
+                        let t = g.task(loc, prog);
+                        evs[e].push(format!("s{t}"));
+                    }
+                }
+                10 => {
+                    // hand-off: a message consumed by the capturing element wakes waiting tasks (outside the
+                    // executor), which pass the baton on
+                    let mut wakes = Vec::new();
+                    for _ in 0..n.min(100) {
+                        let loc = g.kind(mode);
+                        let k = g.cond(true);
+                        let mut prog = vec![format!("a{k}")];
+                        if g.r.chance(1, 2) {
+                            let k2 = g.cond(true);
+                            let loc2 = g.kind(mode);
+                            let u = g.task(loc2, vec![format!("a{k2}")]);
+                            evs[0].push(format!("s{u}"));
+                            prog.push(format!("w{k2}"));
+                        }
+                        let t = g.task(loc, prog);
+                        evs[0].push(format!("s{t}"));
+                        wakes.push(format!("w{k}"));
+                    }
+                    cevs.push((e, wakes));
+                }
                 _ => {
                     // ping-pong between two tasks through semaphores / channels, d rounds
                     let d = n.min(200);
@@ -558,11 +712,21 @@ pub fn gen(seed: u64, count: usize, thorough: bool) -> String {
         for (t, loc, prog) in &g.tasks {
             writeln!(out, "task {t} {} {}", if *loc { "loc" } else { "rt" }, prog.join(" ")).unwrap();
         }
-        let mut t = 0u64;
-        for ev in &evs {
-            t += *g.r.pick(&[1u64, 1000, 1_000_000, 2_500_000_000]);
-            writeln!(out, "ev {t} {}", ev.join(" ")).unwrap();
+        for (i, ev) in evs.iter().enumerate() {
+            writeln!(out, "ev {} {}", times[i], ev.join(" ")).unwrap();
+            // consumed messages follow the work event of their slot, before the next one
+            let mut tc = times[i];
+            for (slot, wakes) in &cevs {
+                if *slot == i {
+                    tc += 1;
+                    if i + 1 < nev && tc >= times[i + 1] {
+                        break;
+                    }
+                    writeln!(out, "cev {tc} {}", wakes.join(" ")).unwrap();
+                }
+            }
         }
+        let mut t = *times.last().unwrap() + 1_000_000;
         // the late unrelated events that make left-behind work visible
         let nl = g.r.range(1, 2);
         for _ in 0..nl {
